@@ -67,6 +67,7 @@ type Contract struct {
 	NoPanic    bool
 	Wraps      bool // unsigned 64-bit + and - are computed modulo 2^64 (machine semantics) instead of being proved not to wrap
 	MayPanic   bool // run-time panics are not excluded: postconditions are about normal returns only
+	OwnBounds  bool // with may_panic: index and slice operations written in the function itself (not in inlined callees) stay obligations
 	Rethrows   bool // a deferred panic handler: whenever its recover() yields a non-nil value it panics again (proved)
 	Panics     []PanicSpec
 	PanicsWith []Clause // predicate over `panicvalue` that every panic leaving the function satisfies
@@ -134,7 +135,7 @@ var reLemma = regexp.MustCompile(`^lemma\s+([A-Za-z_][A-Za-z0-9_]*)\s*\((.*)\)\s
 var rePred = regexp.MustCompile(`^(?:pred|fun)\s+([A-Za-z_][A-Za-z0-9_]*)\s*\((.*?)\)\s*(?:[A-Za-z_.\[\]*]+\s*)?:=\s*(.*)$`)
 
 func clauseKeyword(s string) bool {
-	for _, k := range []string{"property ", "requires ", "ensures ", "defines ", "modifies ", "no_panic", "may_panic", "wraps", "rethrows", "panics_with ", "panics ", "decreases ", "loop#", "at ", "let ", "ghost ", "trusted", "inline", "noinline", "pure", "witness ", "assumes ", "dispatch ", "callback ", "reads_init "} {
+	for _, k := range []string{"property ", "requires ", "ensures ", "defines ", "modifies ", "no_panic", "may_panic", "own_bounds", "wraps", "rethrows", "panics_with ", "panics ", "decreases ", "loop#", "at ", "let ", "ghost ", "trusted", "inline", "noinline", "pure", "witness ", "assumes ", "dispatch ", "callback ", "reads_init "} {
 		if strings.HasPrefix(s, k) {
 			return true
 		}
@@ -354,6 +355,8 @@ func (cs *ContractSet) parseFile(pkgPath, file string) error {
 			cur.Rethrows = true
 		case t == "wraps":
 			cur.Wraps = true
+		case t == "own_bounds":
+			cur.OwnBounds = true
 		case t == "may_panic":
 			cur.MayPanic = true
 			cur.Assumes = append(cur.Assumes, "partial correctness: run-time panics (nil dereference, index, slice bounds, conversion, division) are not excluded here; the postconditions are proved for every normal return")
